@@ -42,6 +42,14 @@ def obligations():
     for k, c, c0 in (("dist_mic", "ortho_ratio6", "cubic"), ("dist_mic", "ortho_1_2_3", "ortho_ratio6"), ("dist_mic_triclinic", "triclinic_a", "monoclinic70")):
         o.append(Obl(f"C05.{k}.frame1.{c}", "py", H, "check_kernel", [f"geometry.cpp:{k}"], f"2-frame call: frame 0 concrete in cell {c0}, frame 1 symbolic in cell {c}",
                      "frame 1 is wrapped with frame 1's cell: lattice shift, minimum image, distance = |v|", 600, params={"kernel": k, "cell": c, "second_frame": True, "cell0": c0}))
+    for k, c, c0 in (("dist_mic_t", "ortho_ratio6", "cubic"), ("dist_mic_t", "cubic", "ortho_1_2_3"), ("dist_mic_triclinic_t", "triclinic_a", "monoclinic70")):
+        o.append(Obl(f"C05.{k}.cells_differ.{c}", "py", H, "check_kernel", [f"geometry.cpp:{k}"], f"time pair (0, 1); frame 0 in cell {c}, frame 1 in cell {c0}",
+                     "the displacement from atom 1 at t0 to atom 2 at t1 is wrapped with the cell of the FIRST time index (documented; the reference path and the other kernel agree)", 600, params={"kernel": k, "cell": c, "cell0": c0}))
+    for fn in ("distance", "distance_t", "displacement"):
+        for pr in ("self", "distinct"):
+            o.append(Obl(f"C05.reference.{fn}.{pr}", "py", "harness.c05_ref", "reference_mic", [f"mdtraj.geometry.distance._{fn if fn != 'distance_t' else 'distance_mic_t'}" if fn == "distance_t" else f"mdtraj.geometry.distance._{fn}_mic"],
+                         "numpy reference path (opt=False), orthorhombic cells 2x3x4 and 3x2.5x5 (per frame), symbolic coordinates in +-20; pair: " + pr + " (self = the same atom twice)",
+                         "the vector handed to norm() is the per-axis minimum image of the plain difference in the documented frame's cell (time pairs: atom c at t1 minus atom d at t2, also for c == d)", 300, params={"fn": fn, "pair": pr}))
     o.append(Obl("C05.python.dispatch", "xh", "harness.c05_py", "dispatch", ["mdtraj.geometry.distance.compute_distances", "compute_distances_core", "compute_displacements", "compute_distances_t"],
                  "3 frames, each orthorhombic or skewed (symbolic), opt, periodic, cell present (symbolic)", "the orthorhombic kernel is chosen only if EVERY frame is orthorhombic; per-frame transposed box, coordinates and pairs unchanged; plain kernels otherwise", 300))
     return o
